@@ -10,6 +10,7 @@ static void ss_weights(int prop, uint32_t *w) {
   static const uint32_t base[kSmallSetNumOps] = {5, 5, 3, 3, 4, 2, 4, 2, 3, 2, 3, 2, 5, 5, 3, 1, 3, 4, 3, 2, 3, 3, 1, 3, 4, 1, 3, 2, 0, 1, 0};
   for (int i = 0; i < kSmallSetNumOps; ++i) w[i] = base[i];
   if (prop == 14) w[28] = 6;
+  if (prop == 9) w[30] = 14;
   if (prop == 11) { w[13] = 9; w[14] = 6; w[24] = 8; w[12] = 6; }
   if (prop == 5) { w[17] = 7; w[18] = 5; w[27] = 4; w[19] = 4; w[20] = 5; w[21] = 5; w[23] = 3; w[12] = 7; w[13] = 7; w[15] = 2; }
 }
